@@ -2,7 +2,7 @@
     Models: Model/C04_Gmod.v (DenseAdditive[Dominance]LinearGenomicModel, DenseLinearGenomicModel, rrBLUPModel0 predictions and
     statistics; TrueBreedingValue), Model/C04_GS.v (gauss_seidel and the non-numerical parts of rrBLUPModel0.fit_numpy). *)
 From Coq Require Import Permutation.
-From PV Require Import Lib.Common Model.C04_Gmod Model.C04_GS Proofs.C04_Counts Proofs.C04_Linear Proofs.C04_Var.
+From PV Require Import Lib.Common Model.C04_Gmod Model.C04_GS Proofs.C04_Counts Proofs.C04_Linear Proofs.C04_Var Proofs.C04_Sums Proofs.C04_GS Proofs.C04_Ridge.
 Local Open Scope Q_scope.
 
 (** ** predictions are linear and label-preserving *)
@@ -187,6 +187,81 @@ Theorem C04_acount_range : forall (ploidy : Z) (p : nat) (mat : zmat), (0 <= plo
   Forall (fun c => 0 <= c <= ploidy * Z.of_nat (length mat))%Z (colsumsZ p mat).
 Proof. exact colsums_bounds. Qed.
 Print Assumptions C04_acount_range.
+
+(** ** ridge regression (rrBLUPModel0.fit_numpy with the variance components, hence the ridge parameter, taken as given) *)
+
+(** structure: the intercept is the training mean, the effect vector has one entry per marker, and a marker outside the
+    polymorphism mask gets exactly 0 — whatever the solver returned *)
+Theorem C04_rr_structure : forall p Z y ridge atol maxiter beta u, rr_fit1 p Z y ridge atol maxiter = Some (beta, u) ->
+  beta = qmean y /\ length u = p /\ (forall j, nth j (poly_mask p Z) true = false -> nth j u 0 = 0).
+Proof. exact rr_fit1_structure. Qed.
+Print Assumptions C04_rr_structure.
+
+(** ... and a marker is outside the mask exactly when all taxa carry the same dosage (monomorphic) *)
+Theorem C04_monomorphic_mask : forall p (Z : zmat) r0 rest j, Z = r0 :: rest -> (j < p)%nat ->
+  (nth j (poly_mask p Z) true = false <-> forall r, In r Z -> nth j r 0%Z = nth j r0 0%Z).
+Proof. exact poly_mask_mono. Qed.
+Print Assumptions C04_monomorphic_mask.
+
+(** Gauss-Seidel is coordinate descent: for a symmetric matrix with positive diagonal no run of gauss_seidel (any tolerance,
+    any iteration limit) ends above f(0) = 0 for f(x) = 1/2 x'Ax - b'x *)
+Theorem C04_gs_coordinate_descent : forall n A b, length A = n -> rows_len n A -> length b = n ->
+  (forall i j, (i < n)%nat -> (j < n)%nat -> nth j (nth i A []) 0 == nth i (nth j A []) 0) ->
+  (forall i, (i < n)%nat -> 0 < nth i (nth i A []) 0) ->
+  forall atol maxiter x, gauss_seidel A b atol maxiter = Some x -> qform A b x <= 0 /\ length x = n.
+Proof. exact gauss_seidel_descent. Qed.
+Print Assumptions C04_gs_coordinate_descent.
+
+(** the penalised least-squares criterion is |y|^2 + 2 f(u) for A = Z'Z + ridge I, b = Z'y *)
+Theorem C04_pls_is_quadratic : forall n p (Z : qmat) y ridge, length Z = n -> rows_len p Z -> length y = n ->
+  forall u, length u = p -> pls Z y u ridge == sumQ (map sq y) + 2 * qform (ztz_ridge p Z ridge) (zty p Z y) u.
+Proof. exact pls_qform. Qed.
+Print Assumptions C04_pls_is_quadratic.
+
+(** hence the fitted effects never do worse than the all-zero solution on |y - mean - Zu|^2 + ridge |u|^2, for every training
+    set, every positive ridge parameter, tolerance and iteration limit (also when Gauss-Seidel has not converged) *)
+Theorem C04_rr_never_worse_than_zero : forall p (Zg : zmat) y ridge atol maxiter beta u,
+  rows_len p Zg -> length y = length Zg -> 0 < ridge ->
+  rr_fit1 p Zg y ridge atol maxiter = Some (beta, u) ->
+  let mask := poly_mask p Zg in
+  let Zp := map (fun r => select mask (map inject_Z r)) Zg in
+  let pp := length (filter (fun x => x) mask) in
+  pls Zp (center y) (select mask u) ridge <= pls Zp (center y) (repeat 0 pp) ridge.
+Proof. exact rr_fit1_criterion. Qed.
+Print Assumptions C04_rr_never_worse_than_zero.
+
+(** normal equations: gauss_seidel stops after k <= maxiter sweeps, and if it stops before the limit then every row i of
+    A x - b is bounded by atol * sum_{j>i} |A_ij| (the last row is solved exactly) *)
+Theorem C04_gs_exit_residual : forall n A b atol maxiter xf, length A = n -> rows_len n A -> length b = n ->
+  0 < atol -> (0 < maxiter)%nat -> gauss_seidel A b atol maxiter = Some xf ->
+  exists k, (1 <= k <= maxiter)%nat /\ xf = iter_sweep A b k (repeat 0 n) /\
+    ((k < maxiter)%nat -> forall i, (i < n)%nat ->
+       Qabs' (nth i (residual A b xf) 0) <= atol * bigsum n (fun j => if Nat.ltb i j then Qabs' (nth j (nth i A []) 0) else 0)).
+Proof. exact gauss_seidel_exit_residual. Qed.
+Print Assumptions C04_gs_exit_residual.
+
+(** the same for the fitted model: (Z'Z + ridge I) u = Z'(y - mean) up to the solver's tolerance whenever the iteration limit
+    was not hit.  The property's clause "whenever n > p" is NOT provable from n > p: with collinear polymorphic markers and the
+    tiny ridge the ML step produces, the implementation hits maxiter = 1000 (finding C04-gs-maxiter). *)
+Theorem C04_rr_normal_equations_partial : forall p (Zg : zmat) y ridge atol maxiter beta u,
+  rows_len p Zg -> length y = length Zg -> 0 < ridge -> 0 < atol -> (0 < maxiter)%nat ->
+  rr_fit1 p Zg y ridge atol maxiter = Some (beta, u) ->
+  let mask := poly_mask p Zg in
+  let Zp := map (fun r => select mask (map inject_Z r)) Zg in
+  let pp := length (filter (fun x => x) mask) in
+  let A := ztz_ridge pp Zp ridge in
+  let b := zty pp Zp (center y) in
+  exists k, (1 <= k <= maxiter)%nat /\ select mask u = iter_sweep A b k (repeat 0 pp) /\
+    ((k < maxiter)%nat -> forall i, (i < pp)%nat ->
+       Qabs' (nth i (residual A b (select mask u)) 0) <= atol * bigsum pp (fun j => if Nat.ltb i j then Qabs' (nth j (nth i A []) 0) else 0)).
+Proof. exact rr_fit1_normal_equations. Qed.
+Print Assumptions C04_rr_normal_equations_partial.
+
+(** the hypotheses above are satisfiable: with a positive ridge the model fit is always defined *)
+Theorem C04_rr_defined : forall p (Zg : zmat) y ridge atol maxiter, length y = length Zg -> 0 < ridge ->
+  exists beta u, rr_fit1 p Zg y ridge atol maxiter = Some (beta, u).
+Proof. exact rr_fit1_defined. Qed.
+Print Assumptions C04_rr_defined.
 
 (** non-vacuity: a concrete dominance model, a phased 2 x 2 x 2 input and a permutation meet the hypotheses *)
 Example C04_hyps_satisfiable :
